@@ -834,7 +834,11 @@ class SimTimeMachine(Machine):
         "mxlpy.integrators.Scipy (continuation state t0/y0, solve_ivp) in the runs that say integrator=scipy",
         "mxlpy.make_protocol", "mxlpy.Model right-hand side (also under the ExactLinear stub)", "mxlpy.Simulation.fluxes for the protocol flux check",
     ]
-    stub_components = ["integrator -> ExactLinear (exact matrix-exponential stepping over the real rhs) in the runs that say integrator=exact"]
+    stub_components = [
+        "integrator -> ExactLinear (exact matrix-exponential stepping over the real rhs) in the runs that say integrator=exact",
+        "every integrator sits behind a content-keyed fault wrapper (FaultyFactory): while the poison value is in force it reports failure, raises, or is interrupted (KeyboardInterrupt), per run",
+        "Model evaluation methods -> interrupt seam (fnlib.Tripper) during the view reads that say so",
+    ]
     assumptions = [
         "closed-form solutions written down from the family spec (matrix exponential) are the oracle",
         "scipy runs are judged at 2e-5*(1+|x|), exact runs at 1e-9*(1+|x|)",
